@@ -71,7 +71,7 @@ func (r *runReport) finish() int {
 	knownSet := map[string]knownFinding{}
 	for _, k := range kf.Known {
 		if k.Property == r.prop {
-			knownSet[k.Obligation] = k
+			knownSet[stripReturn(k.Obligation)] = k
 		}
 	}
 
@@ -123,7 +123,7 @@ func (r *runReport) finish() int {
 				samples = append(samples, sample{o.Name, o.Kind, "discharged", o.Solver, round3(o.Time)})
 			}
 		case "refuted":
-			if k, ok := knownSet[o.Name]; ok {
+			if k, ok := knownSet[stripReturn(o.Name)]; ok {
 				knownHits = append(knownHits, fmt.Sprintf("KNOWN-FINDING: property=%s %s — %s", r.prop, o.Name, k.What))
 				continue
 			}
@@ -139,8 +139,8 @@ func (r *runReport) finish() int {
 				undecided = append(undecided, "UNDECIDED new-obligation-refuted-without-replay "+o.Name)
 			}
 		default:
-			if _, ok := knownSet[o.Name]; ok {
-				knownHits = append(knownHits, fmt.Sprintf("KNOWN-FINDING: property=%s %s — %s (solver: unknown)", r.prop, o.Name, knownSet[o.Name].What))
+			if _, ok := knownSet[stripReturn(o.Name)]; ok {
+				knownHits = append(knownHits, fmt.Sprintf("KNOWN-FINDING: property=%s %s — %s (solver: unknown)", r.prop, o.Name, knownSet[stripReturn(o.Name)].What))
 				continue
 			}
 			if baseSet[o.Name] {
@@ -367,4 +367,13 @@ var globalAssumptions = []string{
 	"goroutine interleavings, channels, timers, cgo bodies are not modelled (calls to them havoc the heap)",
 	"partial correctness: termination only where a decreases clause is given",
 	"pure-marked functions/interface methods are deterministic functions of their arguments' identities",
+}
+
+// stripReturn drops the " @returnN" suffix of a postcondition obligation: a known finding names
+// the contract clause, not the return statement it was checked at.
+func stripReturn(n string) string {
+	if i := strings.LastIndex(n, " @return"); i >= 0 {
+		return n[:i]
+	}
+	return n
 }
